@@ -1,5 +1,6 @@
 import TantivyModel.Model.AggSpec
 import TantivyModel.Gen.Agg
+import TantivyModel.Proofs.AggSort
 /-
 C14 — implementation-level model of `src/aggregation/intermediate_agg_result.rs` and of the
 segment collectors.
@@ -49,6 +50,29 @@ structure TermsI (V : Type) where
   other : Nat
   err : Nat
 
+/-- intermediate top_hits: the best `k` entries seen so far, in order (mirrors:
+metric/top_hits.rs::TopHitsTopNComputer — a `TopNComputer` that is merged by pushing the other
+side's entries; the canonical sorted list is what `into_final_result` returns) -/
+structure Hits (desc : Bool) (k : Nat) where
+  list : List HitE
+  sorted : list.Pairwise (fun a b => hitLe desc a b = true)
+  short : list.length ≤ k
+
+theorem Hits.ext' {desc : Bool} {k : Nat} {a b : Hits desc k} (h : a.list = b.list) : a = b := by
+  cases a; cases b; cases h; rfl
+
+def Hits.empty {desc : Bool} {k : Nat} : Hits desc k := ⟨[], List.Pairwise.nil, Nat.zero_le _⟩
+
+/-- the best `k` of a list of entries -/
+def Hits.ofList {desc : Bool} {k : Nat} (l : List HitE) : Hits desc k :=
+  ⟨(isort (hitLe desc) l).take k,
+   List.Pairwise.sublist (List.take_sublist _ _)
+     (isort_pairwise (hitLe desc) (hitLe_total desc) (hitLe_trans desc) l),
+   by rw [List.length_take]; exact Nat.min_le_left _ _⟩
+
+/-- mirrors: TopHitsTopNComputer::merge_fruits -/
+def Hits.merge {desc : Bool} {k : Nat} (a b : Hits desc k) : Hits desc k := Hits.ofList (a.list ++ b.list)
+
 @[reducible] def Inter (M : Type) : Req → Type
   | .none => Unit
   | .both a b => Inter M a × Inter M b
@@ -57,6 +81,8 @@ structure TermsI (V : Type) where
   | .hist _ sub => KMap (Nat × Inter M sub)
   | .range _ _ sub => KMap (Nat × Inter M sub)
   | .filter _ _ sub => Nat × Inter M sub
+  | .topHits _ _ k desc => Hits desc k
+  | .composite _ _ _ sub => KMap (Nat × Inter M sub)
 
 variable {M : Type} [AddOp M]
 
@@ -69,6 +95,8 @@ def empty : (r : Req) → Inter M r
   | .hist _ _ => KMap.empty
   | .range _ _ _ => KMap.empty
   | .filter _ _ sub => (0, empty sub)
+  | .topHits _ _ _ _ => Hits.empty
+  | .composite _ _ _ _ => KMap.empty
 
 /-- a bucket entry: `doc_count` adds, sub-trees merge (mirrors: `impl MergeFruits for
 Intermediate{Term,Range,Histogram}BucketEntry`) -/
@@ -83,6 +111,8 @@ def merge : (r : Req) → Inter M r → Inter M r → Inter M r
   | .hist _ sub, x, y => KMap.merge (entryMerge (merge sub)) x y
   | .range _ _ sub, x, y => KMap.merge (entryMerge (merge sub)) x y
   | .filter _ _ sub, x, y => (x.1 + y.1, merge sub x.2 y.2)
+  | .topHits _ _ _ _, x, y => Hits.merge x y
+  | .composite _ _ _ sub, x, y => KMap.merge (entryMerge (merge sub)) x y
 
 /-- one bucket increment per listed key (a key listed twice is incremented twice and the
 document is pushed to the sub-aggregation twice — this is what the histogram and range
@@ -99,6 +129,8 @@ def collectDoc : (r : Req) → Doc → Inter M r
   | .hist p sub, d => bump (merge sub) (histPoss p d) (collectDoc sub d)
   | .range f cuts sub, d => bump (merge sub) (rangeIdxs f cuts d) (collectDoc sub d)
   | .filter f v sub, d => if filterMatch f v d then (1, collectDoc sub d) else (0, empty sub)
+  | .topHits f addr _ _, d => Hits.ofList (hitEntries f addr d)
+  | .composite srcs _ _ sub, d => bump (merge sub) (compKeys srcs d) (collectDoc sub d)
 
 /-- segment collection before harvest: documents are collected one after the other -/
 def collect (r : Req) (docs : List Doc) : Inter M r :=
@@ -145,6 +177,10 @@ def harvest : (r : Req) → Inter M r → Inter M r
   | .hist _ sub, x => KMap.mapVals (harvest sub) x
   | .range _ _ sub, x => KMap.mapVals (harvest sub) x
   | .filter _ _ sub, x => (x.1, harvest sub x.2)
+  | .topHits _ _ _ _, x => x
+  -- the per-segment eviction down to `size` buckets is not modelled: it keeps the first
+  -- `size` buckets in key order, which cannot change the first `size` of the merged result
+  | .composite _ _ _ sub, x => KMap.mapVals (harvest sub) x
 
 /-- the fruit of one segment -/
 def collectSeg (r : Req) (docs : List Doc) : Inter M r := harvest r (collect r docs)
@@ -177,6 +213,9 @@ def finalize : (r : Req) → Inter M r → Res M r
       | some e => (k, e.1, finalize sub e.2)
       | Option.none => (k, 0, finalize sub (empty sub))
   | .filter _ _ sub, x => (x.1, finalize sub x.2)
+  | .topHits _ _ _ _, x => x.list
+  | .composite _ size after sub, x =>
+    compPage size after (x.entries.map fun e => (e.1, e.2.1, finalize sub e.2.2))
 
 /-! ### limits (mirrors: agg_limits.rs, IntermediateAggregationResults::into_final_result) -/
 
@@ -190,6 +229,8 @@ def bucketCount : (r : Req) → Res M r → Nat
   | .hist _ sub, x => (x.map fun b => 1 + bucketCount sub b.2.2).sum
   | .range _ _ sub, x => (x.map fun b => 1 + bucketCount sub b.2.2).sum
   | .filter _ _ sub, x => bucketCount sub x.2
+  | .topHits _ _ _ _, _ => 0
+  | .composite _ _ _ sub, x => (x.map fun b => 1 + bucketCount sub b.2.2).sum
 
 /-- the guarded final stage: the complete result or an error, never a shortened result -/
 def finalizeGuarded (limit : Nat) (r : Req) (x : Inter M r) : Except Nat (Res M r) :=
